@@ -113,3 +113,45 @@ Example c01_fast_path_example :
     | EncOk out _ => out = [1;1;0;1;1; 0;0;1;2; 1; 0;0;0;100; 0;2; 0;10; 0;0;0;3; 97;98; 0;0;0;1;107;0;0;0;1;118; 1;2;3]
     | EncErr => False end.
 Proof. eexists. eexists. split; vm_compute; reflexivity. Qed.
+
+(* ===== slow paths and library encoders ===== *)
+(* dubbo: SetData(d) with another buffer, Encode, Decode: for every decoded frame and every new body d (frame below 4 GiB;
+   for a request that is parsed for service metadata the new body must be hessian-decodable: hess d) the encoded bytes
+   decode - all of them - to a frame with exactly the new body, DataLen = |d|, and the same flag, status and id *)
+Theorem c01_dubbo_set_data_roundtrip : forall hess v f n d mem, res (dubbo_decode hess v) = Ok (f, n) ->
+  dubbo_HeaderLen + blen d < U32 ->
+  (negb (N.testbit (nth_num f 0) 5) && N.testbit (nth_num f 0) 7 = true -> hess d = true) ->
+  let out := dubbo_encode mem (dubbo_set_data true d (dubbo_set_id (nth_num f 2) f)) in
+  exists f', res (dubbo_decode hess (view_of out)) = Ok (f', blen out) /\
+    x_payload f' = d /\ nth_num f' 3 = blen d /\ nth_num f' 0 = nth_num f 0 /\ nth_num f' 1 = nth_num f 1 /\ nth_num f' 2 = nth_num f 2.
+Proof. exact dubbo_set_data_roundtrip. Qed.
+Print Assumptions c01_dubbo_set_data_roundtrip.
+
+(* dubbo-thrift slow path (after SetData), RELATIVE to the thrift library's own reader/writer law `thrift_law` (premise;
+   validated by the harness on the real library: premise:thrift-library-law): the re-encoded frame decodes completely to
+   the new payload and the id, with consistent frame / message / header length fields *)
+Theorem c01_thrift_slow_roundtrip : forall tparse whdr mbegin, thrift_law tparse whdr mbegin -> forall svc id payload mt,
+  id < U64 -> mbegin payload = Some mt ->
+  thrift_HeaderIdx + blen (whdr svc id) < U16 ->
+  thrift_MessageLenSize + thrift_HeaderIdx + blen (whdr svc id) + blen payload < U32 ->
+  let out := thrift_encode_slow whdr svc id payload in
+  exists f, res (thrift_decode tparse (view_of out)) = Ok (f, blen out) /\
+    x_payload f = payload /\ nth_num f 3 = id /\ nth_num f 2 = thrift_HeaderIdx + blen (whdr svc id) /\
+    nth_num f 0 = blen out /\ nth_num f 1 = blen out - thrift_MessageLenSize.
+Proof. exact thrift_slow_roundtrip. Qed.
+Print Assumptions c01_thrift_slow_roundtrip.
+
+(* tars: Encode serialises the parsed packet through TarsGo.  RELATIVE to TarsGo's laws (premises, validated by the
+   harness: premise:tarsgo-roundtrip-law, premise:tarsgo-stype-law): the encoded frame decodes completely, as one frame
+   of the same direction, to exactly the packet that was encoded (after SetRequestId: the received packet with only the
+   id replaced) and its length prefix is the true length.  Byte identity with the received frame is NOT claimed
+   (listed finding tars:reserialised-not-byte-identical). *)
+Theorem c01_tars_encode_decode : forall (pkt : Type) jread jwrite (pid : pkt -> N) stype,
+  tars_law_roundtrip pkt jread jwrite -> tars_law_stype pkt jwrite stype -> forall resp p,
+  tars_MessageSizeLen + blen (jwrite resp p) <= tars_MaxPackageLength ->
+  let out := tars_encode pkt jwrite resp p in
+  res (tars_decode stype (tars_rparse pkt jread pid) (view_of out)) =
+    Ok ({| x_nums := [if resp then 1 else 0; pid p]; x_raw := Some (Private out); x_payload := out; x_magic := [] |}, blen out) /\
+  jread resp (dropN tars_MessageSizeLen out) = Some p.
+Proof. exact (fun pkt jread jwrite pid stype => tars_encode_decode pkt jread jwrite pid stype). Qed.
+Print Assumptions c01_tars_encode_decode.
